@@ -141,7 +141,7 @@ def _parse_wrap_args(args, registry=None):
             assert _replace_units(args_as_uc[ndx][0], values_by_name) is not None
             values[ndx] = ureg._convert(
                 getattr(value, "_magnitude", value),
-                getattr(value, "_units", UnitsContainer({})),
+                getattr(value, "_units", ureg.UnitsContainer({})),
                 _replace_units(args_as_uc[ndx][0], values_by_name),
             )
 
@@ -245,7 +245,7 @@ def wraps(
                 % (type(arg), arg)
             )
 
-    converter = _parse_wrap_args(args)
+    converter = _parse_wrap_args(args, ureg)
 
     is_ret_container = isinstance(ret, (list, tuple))
     if is_ret_container:
